@@ -40,8 +40,11 @@ def word_to_model(w, t):
     if t[0] == "bool":
         return val_coq(bool(w)) if w in (0, 1) else val_coq(int(w))
     if t[0] == "bytesm":
-        sh = 8 * (32 - t[1])           # left-aligned; dirty low bytes make the word invalid
-        return val_coq(w >> sh) if w % (1 << sh) == 0 else val_coq(1 << (8 * t[1]))
+        # bytesM arguments are VALUES (the M bytes as a number); ("raw", word) is a deliberately malformed ABI word
+        if isinstance(w, tuple):
+            sh = 8 * (32 - t[1])       # left-aligned; dirty low bytes make the word invalid
+            return val_coq(w[1] >> sh) if w[1] % (1 << sh) == 0 else val_coq(1 << (8 * t[1]))
+        return val_coq(int(w))
     return val_coq(int(w))
 
 
@@ -110,6 +113,8 @@ def enc_val(v, t):
     if t[0] in ("bytes", "string"):
         v = bytes(v)
         return len(v).to_bytes(32, "big") + v + b"\0" * (ceil32(len(v)) - len(v))
+    if t[0] == "bytesm":
+        return ((int(v) << (8 * (32 - t[1]))) % W).to_bytes(32, "big")
     if is_prim(t):
         return (int(v) % W).to_bytes(32, "big")
     if t[0] == "sarr":
@@ -243,6 +248,7 @@ def expected_logs(prog, events):
         if ev[0] != "log":
             continue
         name, fields = prog.events[ev[1]]
+        name = name.lstrip("$")
         from vlib.c01_ast import ty_sig
         sig = name + "(" + ",".join(ty_sig(ft) for _, ft in fields) + ")"
         data = eth_abi.encode([ty_abi(ft) for _, ft in fields], [tree_to_abi(a, ft) for a, (_, ft) in zip(ev[2], fields)])
@@ -331,6 +337,14 @@ class Deployed:
         self.out = compile_src(self.src, cfg, formats=("bytecode", "layout", "asm", "asm_runtime"))
         check_target_opcodes(self.out, cfg.evm)
         self.chain = Chain(cfg.evm)
+        self.helper = None
+        if getattr(prog, "uses_ext", False):
+            from vlib import c01_exthelper as X
+            hinit, self.helper_slot = X.helper_initcode(cfg.evm)
+            self.chain.evm.set_balance(X.HELPER_DEPLOYER, 10 ** 20)
+            self.helper = self.chain.deploy(hinit, sender=X.HELPER_DEPLOYER)
+            if self.helper is None or self.helper.lower() != X.HELPER_ADDR.lower():
+                raise RuntimeError(f"scripted callee not at the expected address: {self.helper}")
         init = bytes.fromhex(self.out["bytecode"][2:])
         if ctor_call is not None:
             init += enc_tuple(ctor_call.args, [t for _, t in prog.ctor.params])
@@ -359,6 +373,9 @@ class Deployed:
     def raw_storage(self, model_final=None):
         out = {}
         for name, t in self.prog.sto:
+            if name == "$hstored":     # the scripted callee's state word
+                out[name] = [self.chain.storage(self.helper, self.helper_slot)] if self.helper else None
+                continue
             if name in self.prog.imm or self.addr is None:
                 out[name] = None          # immutables live in the code, not in storage
                 continue
